@@ -42,7 +42,7 @@ static int dh_set_add(dh_set_t *s, uint64_t h)
 
 typedef struct {
     long states, transitions, executions, nontrivial, outcomes;
-    long extra[8];
+    long extra[12];
     int exhaustive, violations, broken;
     char samples[3][480]; int nsamples;
 } dh_stats_t;
@@ -55,8 +55,8 @@ static void dh_stats_sample(dh_stats_t *s, const char *fmt, ...)
 static void dh_stats_merge(dh_stats_t *a, const dh_stats_t *b)
 {
     a->states += b->states; a->transitions += b->transitions; a->executions += b->executions; a->nontrivial += b->nontrivial; a->outcomes += b->outcomes;
-    for (int i = 0; i < 6; i++) a->extra[i] += b->extra[i];          /* extra[0..5]: summed, extra[6..7]: maximum */
-    for (int i = 6; i < 8; i++) if (b->extra[i] > a->extra[i]) a->extra[i] = b->extra[i];
+    for (int i = 0; i < 10; i++) a->extra[i] += b->extra[i];          /* extra[0..9]: summed, extra[10..11]: maximum */
+    for (int i = 10; i < 12; i++) if (b->extra[i] > a->extra[i]) a->extra[i] = b->extra[i];
     a->exhaustive = a->exhaustive && b->exhaustive; a->violations += b->violations; a->broken += b->broken;
     for (int i = 0; i < b->nsamples && a->nsamples < 3; i++) memcpy(a->samples[a->nsamples++], b->samples[i], 480);
 }
